@@ -636,6 +636,23 @@ def concretize(x, model):
 
 # ------------------------------------------------------------------------------- verifier
 
+def args_by_name(fn, args, kwargs):
+    """the arguments of a stubbed call by PARAMETER NAME (defaults applied), however the call site passed them -
+    positionally or by keyword; a call that does not fit the callee's signature, or a parameter the contract asks for
+    that no longer exists, makes the contract inapplicable (undecided), never wrong"""
+    fn = getattr(fn, "__func__", fn)
+    try:
+        ba = inspect.signature(fn).bind(*args, **kwargs)
+    except TypeError as e:
+        raise Inapplicable(f"stubbed call does not fit {getattr(fn, '__qualname__', fn)}: {e}")
+    ba.apply_defaults()
+
+    class _Args(dict):
+        def __missing__(self, k):
+            raise Inapplicable(f"{getattr(fn, '__qualname__', fn)} has no parameter {k!r} any more")
+    return _Args(ba.arguments)
+
+
 def source_info(fn):
     if type(fn).__name__ == "MissingFunction":
         raise Inapplicable(f"{fn.where}.{fn.__name__} no longer exists under this name")
